@@ -66,6 +66,33 @@ def correspondence(r):
                  describe=describe("bytecode.offset2line"), nontrivial=lambda c, o: len(c["ls"]) > 1)
 
 
+def loaded_path(r):
+    """The same tables on the path a file takes: the reference interpreter builds a code object around the table and marshals it, xdis's
+    unmarshaller loads it, the version's findlinestarts reads the loaded object; compared with the interpreter's own dis.findlinestarts.
+    Among the tables: pairs of bytes >= 0x80 that form valid UTF-8 sequences (a line table mistaken for text loses entries)."""
+    from props import c10
+    rnd = random.Random(r.seed * 131 + 5)
+    fixed = [([6, 1, 0xC2, 0xA9], 1, 240), ([0xC3, 0xA9, 4, 1], 1, 240), ([2, 0xE4, 0xB8, 0xAD, 2, 1], 3, 400), ([0xD0, 0x90, 0xD1, 0x8F], 1, 500),
+             ([6, 1, 200, 3, 255, 0, 4, 1], 10, 600), ([0xF0, 0x9F, 0x98, 0x80], 1, 600)]
+    tabs = fixed + [(t, f, cl) for t, f, cl, k in G.lnotab_tables(rnd, 40 if r.tier == "quick" else 400)]
+    for v in ("2.7", "3.6", "3.7", "3.8", "3.9"):
+        cases = [{"tab": t, "first": f, "codelen": cl, "marshal": True} for t, f, cl in tabs]
+        rc, out, err = C.run_py(ORACLE, host=C.ORACLES[v], stdin=json.dumps(cases), impl=False)
+        res = json.loads(out.split("@@JSON@@")[1])
+        vt = [int(x) for x in v.split(".")]
+        todo = [(c, o) for c, o in zip(cases, res) if "payload" in o and "fls" in o]
+        got = C.run_impl_op("fls_loaded", [{"magic": c10.ORACLE_MAGIC[v], "version": vt, "payload": o["payload"]} for c, o in todo], modules=MODS)
+        for (c, o), g in zip(todo, got):
+            r.case(("loaded", v, C.digest(c["tab"])), nontrivial=len(c["tab"]) >= 4)
+            r.count("loaded-path:" + v)
+            if g != o["fls"]:
+                r.violation({"component": "findlinestarts of a code object as xdis.unmarshal.load_code returns it", "version": v, "co_lnotab": c["tab"], "co_firstlineno": c["first"],
+                             "code_length": c["codelen"], "xdis": g if isinstance(g, list) else str(g), "cpython_dis_findlinestarts": o["fls"],
+                             "why": "the (offset, line) pairs differ from what the producing CPython's dis.findlinestarts gives for the same code object (format: [0, n, offset, 1, line, ...])"})
+                if len(r.violations) > 4:
+                    return
+
+
 def validate_spec(r):
     """Spec/* vs the real interpreters' dis.findlinestarts / co_lines()."""
     rnd = random.Random(r.seed * 31 + 7)
@@ -132,6 +159,7 @@ def run(r):
         r.violation({"broken": "proof obligation", "theorem_or_tie": "Props/C05.v", "log": r.build_failure_excerpt()}, found_input=False, name="C05-obligation.json")
     try:
         correspondence(r)
+        loaded_path(r)
     except SystemExit:
         raise
     except Exception as e:
